@@ -432,42 +432,71 @@ def h_reason_bytes(F, R):
              ("Pubcomp", "v5::publish::Pubcomp::decode_async", 8), ("Disconnect", "v5::connect::Disconnect::decode_async", 1),
              ("Disconnect", "v5::connect::Disconnect::decode_async", 8), ("Auth", "v5::connect::Auth::decode_async", 8),
              ("Suback", "v5::subscribe::Suback::decode_async", 4), ("Unsuback", "v5::subscribe::Unsuback::decode_async", 4)]
-    BAD = 0xFE
+    from r_tables import code_enums
+    from r_pe import pe_from_u8_table
+    fu8 = dict(code_enums(F))
+    tables = {}
     n = 0
     for typ, fid, rl in cases:
         n += 1
-
-        def hook(d, res, args, node, env):
-            r = res or d
-            name = node["fn"].get("name")
-            if r == "common::utils::read_u8":
-                return ok(BAD)
-            if r == "common::utils::read_u16":
-                return ok(Sym("U16"))
-            if name == "read_exact":
-                tgt = strip(node["args"][1])
-                while tgt.get("k") == "Call":
-                    tgt = strip(tgt["args"][0])
-                if tgt.get("k") == "Var":
-                    env[tgt["var"]["id"]] = Tup([0, BAD])
-                return ok(UNIT)
-            if r.endswith("Properties::decode_async"):
-                return ok(Sym("PROPS"))
-            if r.endswith("TryFrom<u16>>::try_from"):
-                return ok(Sym("PID"))
-            if name == "encode_len":
-                return 1
-            return None
-        hdr = _hdr("v5", typ, rl)
-        try:
-            r = PE(F, call_hook=hook, cond_hook=TRY_OK).call_fn(fid, [Sym("READER"), hdr])
-        except Undecided as e:
-            raise AnchorLost("%s cannot be evaluated: %s" % (fid, e))
-        k = result_kind(r)
-        good = k[0] == "err" and isinstance(k[1], Adt) and k[1].variant == "InvalidReasonCode" and \
-            k[1].fields.get("1") == BAD and isinstance(k[1].fields.get("0"), Adt) and k[1].fields["0"].variant == typ
-        R.check(good, "H-raise", "reason-code/%s/rl%d" % (typ, rl),
-                "%s with remaining length %d and reason byte %#04x returns %r (documented: InvalidReasonCode(%s, %#04x))" % (fid, rl, BAD, r, typ, BAD), where=fid)
+        body = fid.rsplit("::", 1)[0]
+        a = F.adts.get(body)
+        fld = next((f for f in (a["variants"][0]["fields"] if a else []) if f["name"] in ("reason_code", "code")), None)
+        enum = fld["ty"] if fld else None
+        if typ in ("Suback", "Unsuback"):
+            enum = "v5::subscribe::%sReasonCode" % ("Subscribe" if typ == "Suback" else "Unsubscribe")
+        if enum not in fu8:
+            raise AnchorLost("reason-code enum of %s (%s)" % (body, enum))
+        if enum not in tables:
+            tables[enum] = pe_from_u8_table(F, fu8[enum], enum)[0]
+        table = tables[enum]
+        bad = []
+        for byte in range(256):
+            def hook(d, res, args, node, env, byte=byte):
+                r = res or d
+                name = node["fn"].get("name")
+                if r == "common::utils::read_u8":
+                    return ok(byte)
+                if r == "common::utils::read_u16":
+                    return ok(Sym("U16"))
+                if name == "read_exact":
+                    tgt = strip(node["args"][1])
+                    while tgt.get("k") == "Call":
+                        tgt = strip(tgt["args"][0])
+                    if tgt.get("k") == "Var":
+                        env[tgt["var"]["id"]] = Tup([0, byte])
+                    return ok(UNIT)
+                if r.endswith("Properties::decode_async"):
+                    return ok(Sym("PROPS"))
+                if r.endswith("TryFrom<u16>>::try_from"):
+                    return ok(Sym("PID"))
+                if name == "encode_len":
+                    return 1
+                if name in ("new", "with_capacity") and "vec" in d.lower():
+                    return Tup([])
+                return None
+            hdr = _hdr("v5", typ, rl)
+            try:
+                r = PE(F, call_hook=hook, cond_hook=TRY_OK, fuel=600).call_fn(fid, [Sym("READER"), hdr])
+            except Undecided as e:
+                raise AnchorLost("%s cannot be evaluated for the reason byte %#04x: %s" % (fid, byte, e))
+            k = result_kind(r)
+            if byte in table:
+                # an accepted byte: the packet carries the variant the code table names (a list of them for SUBACK / UNSUBACK)
+                good = k[0] == "ok" and isinstance(k[1], Adt)
+                if good and fld is not None:
+                    v = k[1].fields.get(fld["name"])
+                    good = isinstance(v, Adt) and v.variant == table[byte]
+                if not good:
+                    bad.append((byte, "Ok with %s" % table[byte], repr(k[1] if len(k) > 1 else k)[:90]))
+            else:
+                good = k[0] == "err" and isinstance(k[1], Adt) and k[1].variant == "InvalidReasonCode" and \
+                    k[1].fields.get("1") == byte and isinstance(k[1].fields.get("0"), Adt) and k[1].fields["0"].variant == typ
+                if not good:
+                    bad.append((byte, "InvalidReasonCode(%s, %#04x)" % (typ, byte), repr(k[1] if len(k) > 1 else k)[:90]))
+        R.check(not bad, "H-raise", "reason-code/%s/rl%d" % (typ, rl),
+                "%s with remaining length %d: reason byte %s gives %s (documented: %s); %d byte(s) disagree" % (
+                    (fid, rl) + ((("%#04x" % bad[0][0]), bad[0][2], bad[0][1]) if bad else ("", "", "")) + (len(bad),)), where=fid)
     R.floor("H-raise", "reason-code cases", n, 14)
 
 
@@ -922,6 +951,8 @@ def h_display(F, R):
                 role = _DISPLAY_OK_CALLS.get(d)
                 if role is None and x["fn"].get("name") in _TEXT_VIEWS and len(x["args"]) == 1:
                     continue
+                if role is None and len(x["args"]) == 1 and _is_text_accessor(F, x["fn"].get("res") or d, adt, field):
+                    continue          # a private accessor of the crate that, evaluated, returns the text field
                 if role is None:
                     bad.append("calls %s" % d)
                     continue
@@ -931,6 +962,12 @@ def h_display(F, R):
                     txt = strip(ops[0]) if ops else {}
                     while txt.get("k") == "Call" and txt["fn"].get("name") in _TEXT_VIEWS and len(txt["args"]) == 1:
                         txt = strip(txt["args"][0])
+                    if txt.get("k") == "Call" and len(txt["args"]) == 1 and _is_text_accessor(F, txt["fn"].get("res") or txt["fn"].get("def"), adt, field) \
+                            and pp(strip(txt["args"][0])).lstrip("&*") == "self":
+                        continue_ok = True
+                        if role != "arg":
+                            sinks += 1
+                        continue
                     if txt.get("k") == "Field" and txt.get("name") == "0" and txt.get("adt") is None and strip(txt["lhs"]).get("k") == "Var":
                         # `args.0` of the format_args! expansion: resolve the tuple binding
                         tup = _resolve_local(b, strip(txt["lhs"])["var"]["id"])
@@ -938,6 +975,11 @@ def h_display(F, R):
                             txt = strip(tup["items"][0])
                             while txt.get("k") == "Call" and txt["fn"].get("name") in _TEXT_VIEWS and len(txt["args"]) == 1:
                                 txt = strip(txt["args"][0])
+                            if txt.get("k") == "Call" and len(txt["args"]) == 1 and _is_text_accessor(F, txt["fn"].get("res") or txt["fn"].get("def"), adt, field) \
+                                    and pp(strip(txt["args"][0])).lstrip("&*") == "self":
+                                if role != "arg":
+                                    sinks += 1
+                                continue
                     okk = txt.get("k") == "Field" and txt.get("name") == field and (txt.get("adt") or "").endswith(name) and \
                         strip(txt["lhs"]).get("k") == "Var" and strip(txt["lhs"])["var"].get("name") == "self"
                     if not okk:
@@ -955,6 +997,23 @@ def h_display(F, R):
                 bad.append("control flow (%s)" % x["k"])
         R.check(not bad and sinks == 1, "H-display", name,
                 "Display for %s does more than write the text once: %s" % (name, "; ".join(bad[:3]) or "%d output calls" % sinks), where=fid)
+
+
+def _is_text_accessor(F, fid, adt, field):
+    """a crate function of one argument that, evaluated on an abstract value of the type, returns its text field"""
+    if fid not in F.fns or not F.fns[fid].get("thir"):
+        return False
+    cache = getattr(F, "_text_acc", None)
+    if cache is None:
+        cache = F._text_acc = {}
+    key = (fid, adt)
+    if key not in cache:
+        try:
+            v = PE(F).call_fn(fid, [Adt(adt, adt.rsplit("::", 1)[1], {field: Sym("TEXT"), "shared_filter_sep": Sym("SEP")})])
+            cache[key] = (v == Sym("TEXT"))
+        except Exception:
+            cache[key] = False
+    return cache[key]
 
 
 def _resolve_local(b, vid):
@@ -1401,3 +1460,173 @@ def t_prims(F, R):
     R.floor("T-prims", "primitives evaluated", n, 8)
     # read_string is read_bytes followed by UTF-8 validation of exactly that buffer, which it returns as the String
     h_utf8_values(F, R)
+
+
+# ---- L-entries: values of list entries, both directions -----------------------------------------------------------------
+
+_CODE_LISTS = [("v5", "Suback", "v5::subscribe::SubscribeReasonCode"), ("v5", "Unsuback", "v5::subscribe::UnsubscribeReasonCode"),
+               ("v3", "Suback", "v3::subscribe::SubscribeReturnCode")]
+
+
+def _list_decode(F, fam, typ, byte=None):
+    """Evaluate a list-carrying body decoder as a whole on a frame with exactly one entry: a code byte (`byte`) or a 3-byte
+    filter. Returns the result kind."""
+    fid = "%s::subscribe::%s::decode_async" % (fam, typ)
+    if fid not in F.fns:
+        raise AnchorLost(fid)
+
+    def hook(d, res, args, node, env):
+        r = res or d
+        name = node["fn"].get("name")
+        if r == "common::utils::read_u8":
+            return ok(byte if byte is not None else 0)
+        if r == "common::utils::read_u16":
+            return ok(Sym("U16"))
+        if r == "common::utils::read_string":
+            return ok(Sym("TOPIC"))
+        if r == "common::utils::decode_var_int":
+            return ok(Tup([0, 1]))
+        if r.endswith("Properties::decode_async"):
+            return ok(Sym("PROPS"))
+        if name == "encode_len" and len(args) == 1:
+            return 1
+        if r.endswith("TryFrom<u16>>::try_from"):
+            return ok(Sym("PID"))
+        if r.endswith("TryFrom<alloc::string::String>>::try_from"):
+            return ok(Sym("FILTER"))
+        if name == "len" and len(args) == 1 and isinstance(args[0], Sym):
+            return 3
+        if name in ("deref", "as_ref", "as_str", "clone") and len(args) == 1 and r not in F.fns:
+            return args[0]
+        if name in ("new", "with_capacity") and "vec" in d.lower():
+            return Tup([])
+        return None
+    entry = 1 if byte is not None else 5
+    rl = 2 + (1 if fam == "v5" else 0) + entry
+    arg = rl if fam == "v3" else _hdr("v5", typ, rl)
+    try:
+        r = PE(F, call_hook=hook, cond_hook=TRY_OK, fuel=600).call_fn(fid, [Sym("READER"), arg])
+    except Undecided as e:
+        raise AnchorLost("%s cannot be evaluated on a one-entry frame%s: %s" % (fid, "" if byte is None else " (code byte %#04x)" % byte, e))
+    return result_kind(r)
+
+
+def _list_encode(F, fam, typ, entry):
+    fid = F.impl_method("Encodable", "%s::subscribe::%s" % (fam, typ), "encode")
+    if fid is None:
+        raise AnchorLost("Encodable for %s::subscribe::%s" % (fam, typ))
+    trace = []
+
+    def hook(d, res, args, node, env):
+        r = res or d
+        name = node["fn"].get("name")
+        if r in ("common::utils::write_u8", "common::utils::write_u16", "common::utils::write_u32", "common::utils::write_bytes"):
+            trace.append((r.rsplit("_", 1)[1], args[1]))
+            return ok(UNIT)
+        if name == "encode" and len(args) == 2 and isinstance(args[0], Sym):
+            trace.append(("encode", args[0]))
+            return ok(UNIT)
+        if name in ("as_bytes", "as_str", "deref", "as_ref") and len(args) == 1 and r not in F.fns:
+            return args[0]
+        return None
+    fields = {"pid": Adt("common::types::Pid", "Pid", {"0": 7}), "topics": Tup([entry])}
+    if fam == "v5":
+        fields["properties"] = Sym("PROPS")
+    try:
+        r = PE(F, call_hook=hook, cond_hook=TRY_OK, fuel=600).call_fn(fid, [Adt("%s::subscribe::%s" % (fam, typ), typ, fields), Sym("WRITER")])
+    except Undecided as e:
+        raise AnchorLost("%s cannot be evaluated on a one-entry packet (%r): %s" % (fid, entry, e))
+    if result_kind(r)[0] != "ok":
+        return None
+    skip = 1 + (1 if fam == "v5" else 0)          # packet identifier, property block
+    return trace[skip:] if trace[:1] == [("u16", 7)] else None
+
+
+def l_entries(F, R):
+    """List entries carry their value in both directions, evaluated on one-entry packets: a SUBACK / UNSUBACK code byte is
+    decoded to the variant its from_u8 table names and every variant is written as its discriminant; an UNSUBSCRIBE /
+    SUBSCRIBE filter is stored as the constructor returned it and written as it is (all 256 bytes / every variant)."""
+    from r_tables import code_enums
+    from r_pe import pe_from_u8_table
+    from tables import enum_discriminants
+    fu8 = dict(code_enums(F))
+    n = 0
+    for fam, typ, enum in _CODE_LISTS:
+        if enum not in fu8:
+            raise AnchorLost("from_u8 of %s" % enum)
+        table, _rej = pe_from_u8_table(F, fu8[enum], enum)
+        bad = []
+        for byte in range(256):
+            n += 1
+            k = _list_decode(F, fam, typ, byte)
+            if byte in table:
+                good = k[0] == "ok" and isinstance(k[1], Adt) and isinstance(k[1].fields.get("topics"), Tup) and \
+                    [getattr(x, "variant", None) for x in k[1].fields["topics"].items] == [table[byte]] and k[1].fields.get("pid") == Sym("PID")
+                if not good:
+                    bad.append((byte, table[byte], repr(k[1] if len(k) > 1 else k)[:100]))
+            elif k[0] != "err":
+                bad.append((byte, "an error", repr(k[1] if len(k) > 1 else k)[:100]))
+        R.check(not bad, "L-entries", "%s/%s/decode" % (fam, typ),
+                "%s %s: a frame whose only entry is the code byte %s decodes to %s (the code table gives %s)" % (
+                    (fam, typ) + ((("%#04x" % bad[0][0]), bad[0][2], bad[0][1]) if bad else ("", "", ""))), where="%s::subscribe::%s::decode_async" % (fam, typ))
+        disc = enum_discriminants(F, enum)
+        ebad = []
+        for v, dv in sorted(disc.items()):
+            n += 1
+            got = _list_encode(F, fam, typ, Adt(enum, v))
+            if got != [("u8", dv)]:
+                ebad.append((v, dv, got))
+        R.check(not ebad, "L-entries", "%s/%s/encode" % (fam, typ),
+                "%s %s: the entry %s is written as %s (its code is %s)" % ((fam, typ) + (ebad[0][0], ebad[0][2], "%#04x" % ebad[0][1]) if ebad else (fam, typ, "", "", "")),
+                where="%s::subscribe::%s::encode" % (fam, typ))
+    for fam in FAMS:
+        n += 2
+        k = _list_decode(F, fam, "Unsubscribe")
+        good = k[0] == "ok" and isinstance(k[1], Adt) and k[1].fields.get("topics") == Tup([Sym("FILTER")]) and k[1].fields.get("pid") == Sym("PID")
+        R.check(good, "L-entries", "%s/Unsubscribe/decode" % fam,
+                "%s UNSUBSCRIBE with one filter decodes to %s (expected the one filter the constructor returned, and the identifier read)" % (
+                    fam, repr(k[1] if len(k) > 1 else k)[:140]), where="%s::subscribe::Unsubscribe::decode_async" % fam)
+        filt = Adt("common::types::TopicFilter", "TopicFilter", {"inner": Sym("FILTER"), "shared_filter_sep": 0})
+        got = _list_encode(F, fam, "Unsubscribe", filt)
+        R.check(got == [("bytes", filt)] or got == [("bytes", Sym("FILTER"))], "L-entries", "%s/Unsubscribe/encode" % fam,
+                "%s UNSUBSCRIBE writes its one filter as %s" % (fam, got), where="%s::subscribe::Unsubscribe::encode" % fam)
+    R.floor("L-entries", "one-entry evaluations", n, 700)
+
+
+# ---- error values compare by variant and payload -------------------------------------------------------------------------
+
+def h_erreq(F, R):
+    """Equality of the codec's error values is by variant *and* payload (derived, or hand-written and evaluated): two
+    UnexpectedProtocol / InvalidQos / .. errors carrying different values are different errors -- callers dispatch on them."""
+    n = 0
+    for adt in ("common::error::Error", "v5::error::ErrorV5"):
+        a = F.adts.get(adt)
+        if a is None:
+            raise AnchorLost(adt)
+        imps = [i for i in F.impls if (i.get("trait") or "").endswith("cmp::PartialEq") and i.get("self_adt") == adt]
+        if not imps:
+            continue
+        n += 1
+        short = adt.rsplit("::", 1)[1]
+        if imps[0].get("derived"):
+            R.ok("H-erreq", short, "derived PartialEq")
+            continue
+        fid = next((it["def"] for it in imps[0]["items"] if it["name"] == "eq"), None)
+        bad = []
+        for v in a["variants"]:
+            if not v.get("fields"):
+                continue
+            fa = {str(i) if not f.get("name") or f["name"].isdigit() else f["name"]: Sym(("a", i)) for i, f in enumerate(v["fields"])}
+            fb = {k: Sym(("b", i)) for i, k in enumerate(fa)}
+            pe = PE(F)
+            pe.symbolic_eq = True
+            try:
+                r = pe.call_fn(fid, [Adt(adt, v["name"], fa), Adt(adt, v["name"], fb)])
+            except Undecided:
+                continue            # the comparison goes into the payloads: not a constant
+            if r is True:
+                bad.append(v["name"])
+        R.check(not bad, "H-erreq", short,
+                "the hand-written PartialEq of %s calls two %s values equal whatever they carry (%s): errors naming different offending "
+                "values compare equal" % (short, bad[0] if bad else "", ", ".join(bad[:4])), where=fid)
+    R.floor("H-erreq", "error types with PartialEq", n, 1)
